@@ -2,7 +2,7 @@
 import proj
 from fractions import Fraction
 
-MAXP = 8
+MAXP = 10
 
 
 def sparse(v):
@@ -44,6 +44,11 @@ def run(item):
             out.append("raises:" + type(e).__name__)
             ret.append([])
             oid.append(0)
+    # a SECOND partition with the same number of blocks decomposes another point: two partitions are independent, the
+    # blocks of one are not constrained against the blocks of the other
+    part2 = pep.declare_block_partition(d=item["d"])
+    z = 2 * x1 - x2
+    part2.get_block(z, 0)
     val = solve()
     if Point.counter > MAXP:
         raise RuntimeError("leaf budget")
